@@ -5,7 +5,7 @@
    loop of gather.go); S = the ONNX index formulas (Check/CheckC08.v: Slice-13 clamping rules, Gather
    formula, two-way broadcast, concatenation, permutation). *)
 From Coq Require Import List ZArith Bool String.
-From V Require Import DType Tensor Case OpCheck BroadcastProofs IndexOps CheckC08 ShapeOpsProofs IndexOpsProofs GatherLoop GatherLoopProofs C08TransposeFormula C08ConcatShape.
+From V Require Import DType Tensor Case OpCheck BroadcastProofs IndexOps CheckC08 ShapeOpsProofs IndexOpsProofs GatherLoop GatherLoopProofs C08TransposeFormula C08ConcatShape C08TransposeGuard.
 Import ListNotations.
 
 (* For EVERY case of the five operators -- any rank, any positive extents, any attributes and operand
@@ -64,6 +64,15 @@ Theorem C08_transpose_spec_is_formula t (perm : list nat) :
               forall k, (k < List.length (sh t))%nat -> nth (nth k perm 0%nat) j 0%nat = nth k i 0%nat.
 Proof. exact (transpose_spec_is_formula t perm). Qed.
 Print Assumptions C08_transpose_spec_is_formula.
+(* its hypotheses are met by every request for which S prescribes a value: every perm attribute
+   S accepts (perm_ok), and the default when perm is absent or empty (reversed axes) *)
+Theorem C08_transpose_formula_covers_spec t p :
+  (perm_ok t p = true ->
+   List.length (map Z.to_nat p) = List.length (sh t) /\ NoDup (map Z.to_nat p) /\
+   forall a, In a (map Z.to_nat p) -> (a < List.length (sh t))%nat) /\
+  (let q := rev (seq 0 (List.length (sh t))) in
+   List.length q = List.length (sh t) /\ NoDup q /\ forall a, In a q -> (a < List.length (sh t))%nat).
+Proof. exact (conj (perm_ok_hyps t p) (default_perm_hyps t)). Qed.
 
 (* the value S prescribes for Concat (concat_value), for ANY number of inputs and any axis of the
    first input: the extent along the axis is the sum of all inputs' extents there, every other
